@@ -456,9 +456,8 @@ impl Signed for SymF {
 }
 impl MulAdd for SymF {
     type Output = SymF;
-    #[track_caller]
     fn mul_add(self, a: SymF, b: SymF) -> SymF {
-        self * a + b
+        SymF(with(|ar| ar.fma(self.0, a.0, b.0)))
     }
 }
 
@@ -541,9 +540,8 @@ impl Float for SymF {
     fn is_sign_negative(self) -> bool {
         sign_negative(self)
     }
-    #[track_caller]
     fn mul_add(self, a: SymF, b: SymF) -> SymF {
-        self * a + b
+        SymF(with(|ar| ar.fma(self.0, a.0, b.0)))
     }
     #[track_caller]
     fn powi(self, n: i32) -> SymF {
